@@ -13,3 +13,18 @@ claim("C16", "model_checking", "table extraction from the typed AST + exhaustive
       "the same buffered reader, stoppable Each, pooled scanner reset. Does NOT decide agreement with a real /bin/sh (nothing is executed); the reference transducer is trusted.",
       BASE_NOTE + " traces_validated_against_impl is 0 by construction of this family: the model IS the source table, linked to the interpreter by rule R-FST-INTERP.",
       "DESIGN.md section 3, C16")
+claim("C05", "other", "affine index-form extraction from go/ssa + must-pass-through path rules",
+      "Decides two necessary structural conditions of heap order named in the property's rationale: (1) the parent index used by sift-up and the child indices used by "
+      "sift-down are mutually inverse (extracted as affine forms from the SSA; arithmetic on the constants), the children form one block and the root is nobody's child; "
+      "(2) a slot overwritten at an arbitrary offset (Remove(i)) is sifted down and, unless that moved it, sifted up on every path; plus every bulk heapify loop covers all "
+      "internal nodes down to the root, and Each is stoppable. Today's tree violates (1): known finding F1 (see known_findings.json). Does NOT decide that Front/Pop is "
+      "minimal for every history, multiset conservation, or Sort's result.",
+      BASE_NOTE + " Sift functions are located by role (loop + exchange call), names are not used.",
+      "DESIGN.md section 3, C05")
+claim("C06", "other", "must-pass-through pairing of slot writes with position reports; who-may-write rule on the LRU index",
+      "Decides: every write of a heap slot in heapq.Queue (element store, append, copy) is followed on every path by a position report for that very slot with the element "
+      "loaded after the write, or the slot is truncated away; Add returns sift-up's result on the append index; the LRU store's key->offset index has exactly the writers "
+      "{update callback with its own arguments, Store with Add's result} and deleters paired with the heap removal, and the callback is installed before the store escapes. "
+      "Does NOT decide that reported offsets are right for every history (follows from these rules plus array semantics, not checked).",
+      BASE_NOTE,
+      "DESIGN.md section 3, C06")
